@@ -39,6 +39,15 @@ Definition route_code (code : seg) (r : route) : route :=
   | Some l => Some (code :: l)
   end.
 
+(* StreamToQueue(queue, None): ConcurrentStreamTestSuite documents a sub-suite's route code as "None or a
+   string"; with no routing code there is nothing to prefix and the event's own code is handed on unchanged
+   (None stays None: `return self.routing_code`). *)
+Definition route_code_opt (code : option seg) (r : route) : route :=
+  match code with
+  | Some c => route_code c r
+  | None => r
+  end.
+
 (* an event that passes through StreamToQueue(q, c1), whose queue is drained into
    StreamToQueue(q', c2), ... : codes innermost first *)
 Definition push_all (via : list seg) (r : route) : route :=
